@@ -349,7 +349,8 @@ theorem loop7_eq (r : Generated.Tile.tileHashReader H) (h N : Nat) (h1 : 1 ≤ h
     match Tile.authChildren node N p (data.map (unflatS ofBytes)) f i with
     | .ok () => Generated.Tile.tileHashReader_ReadHashes_loop7 node ofBytes r idxs og (p.tiles.map toGen) data effLog fuel
         (i : Int) = .ok (Ctl.next ((p.tiles.length : Nat) : Int))
-    | .error e => ∃ msg, MsgOK rerr e msg ∧ Generated.Tile.tileHashReader_ReadHashes_loop7 node ofBytes r idxs og
+    | .error e => (e = .badMath ∨ e = .inconsistent) ∧ ∃ msg, MsgOK rerr e msg ∧
+        Generated.Tile.tileHashReader_ReadHashes_loop7 node ofBytes r idxs og
         (p.tiles.map toGen) data effLog fuel (i : Int) = .ok (Ctl.ret ((([] : List H), msg), effLog)) := by
   intro f
   induction f with
@@ -389,7 +390,7 @@ theorem loop7_eq (r : Generated.Tile.tileHashReader H) (h N : Nat) (h1 : 1 ≤ h
     generalize hP : Tile.tileParent p.tiles[i] 1 N = par at hpd
     cases hlk : p.order.lookup par with
     | none =>
-      refine ⟨some "bad math in tileHashReader %d %v: lost parent of %v", Or.inr (Or.inl rfl), ?_⟩
+      refine ⟨Or.inl rfl, some "bad math in tileHashReader %d %v: lost parent of %v", Or.inr (Or.inl rfl), ?_⟩
       simp only [Bool.not_false, ↓reduceIte, mpure]
     | some j =>
       have hj := (pf.look par j).mp hlk
@@ -447,11 +448,11 @@ theorem loop7_eq (r : Generated.Tile.tileHashReader H) (h N : Nat) (h1 : 1 ≤ h
           exact this
         · have hb : (v != rr) = true := by simp [heq]
           simp only [hb, ↓reduceIte]
-          refine ⟨some "downloaded inconsistent tile", rfl, ?_⟩
+          refine ⟨Or.inr trivial, some "downloaded inconsistent tile", rfl, ?_⟩
           simp only [heq, decide_false, Bool.not_false, ↓reduceIte, mpure]
       · rw [hbad]
         simp only [hftOut]
-        refine ⟨wrapErr "bad math in tileHashReader %d %v: lost hash of %v: %v" (some (hftMsg par (data[j].length / 32))),
+        refine ⟨Or.inl trivial, wrapErr "bad math in tileHashReader %d %v: lost hash of %v: %v" (some (hftMsg par (data[j].length / 32))),
           Or.inr (Or.inr (Or.inl ⟨_, hftMsg_ok _ _, rfl⟩)), ?_⟩
         simp [mpure]
 
